@@ -26,3 +26,20 @@ def run(ctx, rep):
     T = N.T
     T.check_noopt(rq)
     T.check_Q(rq)
+    # premises the statement inherits: "start time" of a note and "last note end" are the tempo-map times of C01/C11/C03
+    rn = rep.rule("note-times", "each note's start time is Q0(own tick) and its end Q0(tick + longest sustain) (C01 P5, C11 cursors, C03 sustains)", floor=3)
+    N.check_time_wiring(rn, rn)
+    N.check_grouping(rn, rn)
+    rs1 = rep.rule("sustain.selection", "lane lengths come from exactly the five lanes (C03)", floor=1)
+    rs2 = rep.rule("sustain.store", "slot store (C03)", floor=2)
+    rs3 = rep.rule("sustain.refine", "refinement table (C03)", floor=3)
+    N.check_sustain(rs1, rs2, rs3)
+    rl = rep.rule("longest", "longest sustain helper (C03)", floor=5)
+    N.check_longest(rl)
+    ri = rep.rule("index", "governing tempo index: guards and scan (C11)", floor=3)
+    T.check_index(ri, ri)
+    rf = rep.rule("formula", "seconds formula (C01 P1)", floor=1)
+    T.check_sec_formula(rf)
+    rch = rep.rule("chain", "file -> lines -> framing -> routing -> dispatcher -> note builder", floor=10)
+    from .chain import check_chain
+    check_chain(ctx, rch, "instrument", strict=True)
